@@ -37,6 +37,7 @@ LEVEL_TEXT = (
     "emitted header; every exception was attributed to a single input record. Holds only on what was observed; overlapping "
     "records, non-ACGT bases, missing FORMAT/SQ and '.' entries inside ACP/AFP/SNVDP were not generated."
 )
+LEVEL_TEXT += ' Session 3: records listing 129-300 haplotypes (allele numbers beyond int8 / uint8 in GT, AC, ACP).'
 LEVEL_NOTE = (
     "Trusts vlib/vcfparse.py (independent VCF text parser), the projection oracle in this file and vlib/datasets.py / vlib/hapvcf.py "
     "writers; pipeline inputs are whatever the real assemble / call / call-exact of the same tree emitted (their correctness is "
